@@ -3,7 +3,7 @@
 emd/_cycles_support.py -> coq/gen/Gen_Skel_Cycitersupport.v : _slice_len, map_cycle_to_samples_augmented,
     map_subset_to_sample_augmented, get_subset_stat_from_samples (whole bodies)
 emd/cycles.py          -> coq/gen/Gen_Skel_Cyciter.v        : Cycles.get_inds_of_cycle, Cycles.iterate, Cycles.__iter__,
-    Cycles.compute_position_in_chain, the nested _get_chain_len of compute_chain_timings, IterateCycles.__init__,
+    Cycles.compute_position_in_chain, the nested _get_chain_len of compute_chain_timings,
     IterateCycles.niters, IterateCycles.__iter__, get_cycle_inds (whole bodies)
 as terms of lib/PyLoop.v. model/SkelPrims_Cyciter.v maps the opaque calls to the list operations that
 model/CyclesObj.v / model/CycleMaps.v are written with; proofs/SkelFacts_Cyciter.v proves the refinements (C14, C15, C16).
@@ -33,12 +33,11 @@ gen_skeleton.generate(
      ('Cycles.__iter__', 'body', 'Cycles_iter'),
      ('Cycles.compute_position_in_chain', 'body'),
      ('Cycles.compute_chain_timings._get_chain_len', 'body', 'get_chain_len'),
-     ('IterateCycles.__init__', 'body', 'IterateCycles_init'),
      ('IterateCycles.niters', 'body'),
      ('IterateCycles.__iter__', 'body', 'IterateCycles_iter'),
      ('get_cycle_inds', 'body')],
     'Gen_Skel_Cyciter.v',
-    'Cycles.get_inds_of_cycle, iterate, __iter__, compute_position_in_chain, _get_chain_len; IterateCycles.__init__, niters, __iter__; get_cycle_inds (C15, C16).',
+    'Cycles.get_inds_of_cycle, iterate, __iter__, compute_position_in_chain, _get_chain_len; IterateCycles.niters, __iter__; get_cycle_inds (C15, C16).',
     modules=MODS,
     logger='logger',
     call_frame_callee=True)
